@@ -30,7 +30,7 @@ def prepare(scratch, units, tier="quick"):
             # the item text is copied verbatim into a dependency-free crate.
             cdir = os.path.join(scratch.root, "standalone", u["name"])
             os.makedirs(os.path.join(cdir, "src"))
-            parts = ["#![allow(dead_code, unused)]\n"]
+            parts = ["#![allow(dead_code, unused)]\n" + cfg.get("prelude", "")]
             for ex in cfg["extract"]:
                 if not os.path.exists(scratch.path(ex["file"])):
                     raise Undecided("lost anchor: %s does not exist" % ex["file"])
@@ -39,24 +39,29 @@ def prepare(scratch, units, tier="quick"):
                     it = rs.find_item(text, ex["item"])
                 except rs.ScanError as e:
                     raise Undecided("lost anchor: %s in %s (%s)" % (ex["item"], ex["file"], e))
+                if ex.get("fn_body"):
+                    # whole-body slice: the body text of the fn with the listed textual substitutions, under a
+                    # new signature whose parameters stand for the substituted sub-expressions
+                    expr = rs.fn_body_text(text, it)
+                    for a, b in ex.get("subst", {}).items():
+                        if a not in expr:
+                            raise Undecided("lost anchor: %r not in the body of %s :: %s" % (a, ex["file"], ex["item"]))
+                        expr = expr.replace(a, b)
+                    fn_txt = "pub %s {\n    %s\n}\n" % (ex["as_fn"], expr)
+                    if ex.get("impl"):
+                        fn_txt = "impl %s {\n%s}\n" % (ex["impl"], fn_txt)   # so that `Self` resolves as in the source
+                    parts.append("// body slice of %s :: %s (substitutions %s)\n%s"
+                                 % (ex["file"], " :: ".join(ex["item"]), ex.get("subst", {}), fn_txt))
+                    edits.append("extract the body of %s :: %s as `%s` with substitutions %s (signature replaced)"
+                                 % (ex["file"], " :: ".join(ex["item"]), ex["as_fn"], ex.get("subst", {})))
+                    continue
                 if "let" in ex:
                     # statement slice: the initialiser expression of one `let` of the fn body, wrapped
                     # into a function whose parameters are the free names of that expression
-                    body = text[it.body_open + 1:it.body_close]
-                    mbody = rs.mask(body)
-                    mms = list(re.finditer(r"\blet\s+%s\s*(?::[^=;]+)?=\s*" % re.escape(ex["let"]), mbody))
-                    mm = mms[ex.get("nth", 0)] if len(mms) > ex.get("nth", 0) else None
-                    if "count" in ex and len(mms) != ex["count"]:
-                        raise Undecided("lost anchor: expected %d `let %s` in %s :: %s, found %d" % (ex["count"], ex["let"], ex["file"], ex["item"], len(mms)))
-                    if not mm:
-                        raise Undecided("lost anchor: `let %s` in %s :: %s" % (ex["let"], ex["file"], ex["item"]))
-                    j = mm.end()
-                    depth = 0
-                    while j < len(mbody) and not (mbody[j] == ";" and depth == 0):
-                        depth += mbody[j] in "([{"
-                        depth -= mbody[j] in ")]}"
-                        j += 1
-                    expr = re.sub(r"\s+", " ", body[mm.end():j].strip()).replace(" .", ".")
+                    try:
+                        expr = rs.slice_let(text, it, ex["let"], ex.get("nth", 0), ex.get("count"))
+                    except rs.ScanError as e:
+                        raise Undecided("lost anchor: `let %s` in %s :: %s (%s)" % (ex["let"], ex["file"], ex["item"], e))
                     for a, b in ex.get("subst", {}).items():
                         if a not in expr:
                             raise Undecided("lost anchor: %r not in the initialiser of `let %s` (%s)" % (a, ex["let"], expr[:200]))
@@ -66,7 +71,10 @@ def prepare(scratch, units, tier="quick"):
                     edits.append("extract the initialiser of `let %s` from %s :: %s as `%s` (rest of the function dropped; substitutions %s)"
                                  % (ex["let"], ex["file"], " :: ".join(ex["item"]), ex["as_fn"], ex.get("subst", {})))
                     continue
-                parts.append("// extracted verbatim from %s :: %s\n%s\n" % (ex["file"], " :: ".join(ex["item"]), text[it.start:it.end]))
+                code = text[it.start:it.end]
+                if it.kind in ("struct", "enum"):
+                    code = text[it.attr_end:it.end]   # derives / cfg_attr of the data type are dropped
+                parts.append("// extracted verbatim from %s :: %s\n%s\n" % (ex["file"], " :: ".join(ex["item"]), code))
                 edits.append("extract verbatim %s :: %s into a stand-alone crate (enclosing item and rest of file dropped)"
                              % (ex["file"], " :: ".join(ex["item"])))
             hsrc = os.path.join(u["dir"], cfg["harness"])
